@@ -33,6 +33,9 @@ def lookup {α} (xs : List (Nat × α)) (k : Nat) : Option α := (xs.find? (·.1
 
 structure St where
   fails : List String := []
+  /-- failures of the gated (known-finding) classes: ranked below a broken tie, so that a known defect
+      in the same case cannot mask a divergence of the region model -/
+  soft : List String := []
   stats : List (String × Nat) := []
   strict : List String := []
 
@@ -40,7 +43,7 @@ def bump (s : St) (k : String) (n : Nat := 1) : St := { s with stats := bumpStat
 
 def gated (s : St) (cls msg : String) : St :=
   let s := bump s ("finding." ++ cls)
-  if s.strict.contains cls || s.strict.contains "all" then { s with fails := s!"[{cls}] {msg}" :: s.fails } else s
+  if s.strict.contains cls || s.strict.contains "all" then { s with soft := s!"[{cls}] {msg}" :: s.soft } else s
 
 def fail (s : St) (msg : String) : St := { s with fails := msg :: s.fails }
 
@@ -185,7 +188,11 @@ def checkCase (strict : List String) (c : Case) : CaseResult := Id.run do
     s := gated (bump s (if (l[0]!.splitOn "freeSegmentID").length > 1 then "assert.freeSegmentID" else "assert.other"))
       "lib-assert" s!"library assertion failed: {l[0]!}"
   if !(c.get "assert").isEmpty then
-    return { verdict := match s.fails.reverse with | f :: _ => .specfail f | [] => (match diverged with | some m => .diverge m | none => .ok), nontrivial := false, stats := s.stats }
+    return { verdict := match s.fails.reverse with
+        | f :: _ => .specfail f
+        | [] => (match diverged with
+          | some m => .diverge m
+          | none => (match s.soft.reverse with | f :: _ => .specfail f | [] => .ok)), nontrivial := false, stats := s.stats }
   let routes := (c.get "route").toList.map (fun l => (nat! l[0]!, ptsFrom l 2 (nat! l[1]!)))
   let disps := (c.get "disp").toList.map (fun l => (nat! l[0]!, ptsFrom l 2 (nat! l[1]!)))
   let cpss := (c.get "cps").toList.map (fun l => (nat! l[0]!, ptsFrom l 2 (nat! l[1]!)))
@@ -286,12 +293,16 @@ def checkCase (strict : List String) (c : Case) : CaseResult := Id.run do
   match c.get1 "overlap" with
   | some l => s := bump s (if (l[0]! == "1") == anyAfter then "overlapflag.agree" else "overlapflag.differ")
   | none => pure ()
+  -- rank: property failures outside the known classes, then a broken region tie, then the known classes
   match s.fails.reverse with
   | f :: _ => return { verdict := .specfail f, nontrivial := sharedBefore > 0, stats := s.stats }
   | [] =>
     match diverged with
     | some m => return { verdict := .diverge m, nontrivial := sharedBefore > 0, stats := s.stats }
-    | none => return { verdict := .ok, nontrivial := sharedBefore > 0, stats := s.stats }
+    | none =>
+      match s.soft.reverse with
+      | f :: _ => return { verdict := .specfail f, nontrivial := sharedBefore > 0, stats := s.stats }
+      | [] => return { verdict := .ok, nontrivial := sharedBefore > 0, stats := s.stats }
 
 def run (args : List String) : IO UInt32 := runCases (checkCase args)
 
